@@ -868,13 +868,24 @@ func TestC24_KF_PubkeyIDOverflow(t *testing.T) {
 	if f != "" {
 		t.Fatalf("VERIF-SIG[C24-commit-failed] %s", f)
 	}
+	// every stage reloads height 1 (nil key, first key), one bulk height and everything
+	// committed after the bulk; only the first stage reloads all heights (cost)
+	bulkEnd := h
+	full := true
 	describe := func(stage string, st events.IEventsDB) bool {
-		sig, msg, bad := c24CheckAll(st, want, h)
+		sample := map[uint32][]events.Event{}
+		for hh, w := range want {
+			if full || hh == 1 || hh == bulkEnd-1 || hh >= bulkEnd {
+				sample[hh] = w
+			}
+		}
+		full = false
+		sig, msg, bad := c24CheckAll(st, sample, h)
 		if sig == "" {
-			t.Logf("%s: all %d heights reload unchanged", stage, h-1)
+			t.Logf("%s: all %d reloaded heights are unchanged", stage, len(sample))
 			return false
 		}
-		t.Logf("%s: %d of %d heights differ; first: [%s] %s", stage, bad, h-1, sig, msg)
+		t.Logf("%s: %d of %d reloaded heights differ; first: [%s] %s", stage, bad, len(sample), sig, msg)
 		return true
 	}
 	jail := func(i int) {
